@@ -1,5 +1,5 @@
 (* Properties/C02.v — annotations reach exactly the ancestors; records stay direct (C02) *)
-From HpoV Require Import Gen.Consts Model.Base Model.Group Model.Onto Model.Dump Run.World Run.C02 Proofs.C02P Proofs.ClosureP Proofs.LinkP Proofs.RecordsP Proofs.GroupP Proofs.DistP Proofs.AnnotP.
+From HpoV Require Import Gen.Consts Model.Base Model.Group Model.Onto Model.Dump Run.World Run.C02 Proofs.C02P Proofs.ClosureP Proofs.LinkP Proofs.RecordsP Proofs.GroupP Proofs.DistP Proofs.AcyclicP Proofs.AnnotP Proofs.BuilderAnnotP Model.Script.
 
 (* For every observation that passes the executable statement (evaluated by the check on the real
    crate's observation of every generated ontology, for each of the three kinds separately): *)
@@ -64,13 +64,13 @@ Proof. exact annotate_is_link. Qed.
 (* the hypotheses [good] of the propagation theorems above hold of every ontology with exact
    ancestor caches (qgood: proved of every Builder-built ontology, C11_builder_ontologies_are_qgood)
    whose is_a graph is acyclic and whose annotation sets are sorted *)
-Theorem C02_propagation_hypotheses_hold : forall k o, qgood o -> ranked (o_arena o) ->
+Theorem C02_propagation_hypotheses_hold : forall k o, qgood o -> acyclic (o_arena o) ->
   (forall t, In t (ar_terms (o_arena o)) -> sorted (t_annots k t)) -> good k (o_arena o).
 Proof. exact qgood_good. Qed.
 
 (* all records of one kind loaded into an ontology that carries none of that kind yet: every term
    ends up with exactly the ids that have a direct fact at the term or at one of its descendants *)
-Theorem C02_model_record_phase : forall k o rs o', qgood o -> ranked (o_arena o) ->
+Theorem C02_model_record_phase : forall k o rs o', qgood o -> acyclic (o_arena o) ->
   (forall t, In t (ar_terms (o_arena o)) -> t_annots k t = []) ->
   foldM (SectionP.load_record k) rs o = Ok o' ->
   frame k (o_arena o) (o_arena o') /\
@@ -79,6 +79,14 @@ Theorem C02_model_record_phase : forall k o rs o', qgood o -> ranked (o_arena o)
     forall x, In x (t_annots k t') <->
       exists r, In r rs /\ a_id r = x /\ exists d, In d (a_hpos r) /\ (t_id t' = d \/ In (t_id t') (allp_of (o_arena o) d)).
 Proof. exact phase_spec. Qed.
+
+(* THE PROPERTY, FOR EVERY BUILDER SCRIPT: whatever calls are made in whatever order (failing ones
+   included), in the finished ontology the is_a graph is acyclic and every term carries, for each
+   kind, exactly the ids of the records with a direct annotation at the term itself or at one of its
+   descendants, as a sorted set *)
+Theorem C02_builder_annotations_exact : forall icf s codes o, run_script icf s = Ok (codes, Ok o) ->
+  acyclic (o_arena o) /\ ann_ok o.
+Proof. exact run_script_ann_ok. Qed.
 
 Print Assumptions C02_inherited_exact.
 Print Assumptions C02_records_wellformed.
@@ -90,3 +98,4 @@ Print Assumptions C02_model_records_stay_direct.
 Print Assumptions C02_model_annotate_is_one_propagation.
 Print Assumptions C02_propagation_hypotheses_hold.
 Print Assumptions C02_model_record_phase.
+Print Assumptions C02_builder_annotations_exact.
